@@ -174,3 +174,24 @@ PROPS["C03"] = {
     "trusted_base": ["verus 0.2026.09.13 + z3", "kani 0.68.0 + cbmc 6.11"],
     "explanation": "partition-safety guard of multi-worker execution",
 }
+
+PROPS["C05"] = {
+    "verus": ["pushdown"],
+    "kani": ["optimizer_helpers"],
+    "level": "proof",
+    "level_text": "Index remapping of the optimizer, the mechanism C05 names: (1) Verus, unbounded, on Optimizer::pushdown_filters, right_pushdown_offset and nth_non_key_column sliced from /repo each run — at the right-push site the pushed predicate reads, for every tested column, the right-input column that the join output (left ++ right non-key columns) shows at that position; (2) Kani on the real adjust_predicate_columns / get_predicate_columns for 26 scalar predicate variants over the full range of columns/offsets/constants (these are the contracts the Verus unit assumes) and on remap_projection_for_join_flatmap (BOUNDED: left<=3, right arity 4). The other rewrite passes (fuse_*, eliminate_*, join reordering, boolean specialization) and the statement 'every rewrite denotes the same relation' are not decided.",
+    "level_note": "trusted: Verus+Z3, Kani+CBMC; the Join output layout (left ++ right non-key columns) is the contract taken from code_generator's join; output_schema().len() < 2^31; slice::contains is membership; HashMap-carrying predicate variants (ColumnCompareArith, ArithCompareConst) are outside the Kani harnesses; termination of pushdown_filters not proved",
+    "technique": "Verus contracts + program-point obligation on functions extracted from /repo each run (erasure-checked, two listed closure-pattern substitutions); Kani harnesses for the assumed helper contracts",
+    "aux_failure": "violation",
+    "functions_under_contract": ["src/optimizer/mod.rs: Optimizer::pushdown_filters, right_pushdown_offset, nth_non_key_column (Verus); adjust_predicate_columns, get_predicate_columns, remap_projection_for_join_flatmap (Kani)", "src/ir/mod.rs: enum IRNode (verbatim)"],
+    "assumptions": [
+        "Join output = all left columns followed by the right columns that are not join keys (code_generator generate_join; stated as `shows_at`)",
+        "IRNode::output_schema().len() < 2^31 (assumed contract; the function itself is not verified)",
+        "get_predicate_columns / adjust_predicate_columns contracts are assumed in Verus and discharged by Kani for the 26 scalar variants; NOT for the recursive And/Or arms (CBMC does not finish) nor ColumnCompareArith / ArithCompareConst (HashMap<String,usize>, iteration order)",
+        "slice::contains(x) <=> some element == x; usize is 64 bit",
+        "pushdown_filters: partial correctness (exec_allows_no_decreases_clause)",
+        "not decided: fuse_consecutive_maps, fuse_to_flatmap, fuse_to_join_flatmap call site, eliminate_*, Optimizer::optimize fixpoint, JoinPlanner::plan_joins/remap_predicate, BooleanSpecializer::specialize",
+    ],
+    "trusted_base": ["verus 0.2026.09.13 + z3", "kani 0.68.0 + cbmc 6.11"],
+    "explanation": "index remapping at the filter push-down site and in the predicate/projection helpers",
+}
